@@ -1545,9 +1545,9 @@ var _ rpc.Resources
 // events - in this order.
 //@ closure (*Subscription).processCollectionEvent#1
 //@   requires s != nil && event != nil && s.c != nil && predConnOK(s.c.(*wsConn)) && sub != nil && sub.c == s.c
-//@   ensures[C03] old(s.state) == stateDisposed ==> wsframes == old(wsframes) && callcount("GetRPCResources") == old(callcount("GetRPCResources")) &&
+//@   ensures[C03] old(s.state) != stateSent ==> wsframes == old(wsframes) && callcount("GetRPCResources") == old(callcount("GetRPCResources")) &&
 //@       callcount("ReleaseRPCResources") == old(callcount("ReleaseRPCResources")) && callcount("unqueueEvents") == old(callcount("unqueueEvents"))
-//@   ensures[C03] old(s.state) != stateDisposed ==> callcount("GetRPCResources") == old(callcount("GetRPCResources")) + 1 &&
+//@   ensures[C03] old(s.state) == stateSent ==> callcount("GetRPCResources") == old(callcount("GetRPCResources")) + 1 &&
 //@       callcount("ReleaseRPCResources") == old(callcount("ReleaseRPCResources")) + 1 && callcount("unqueueEvents") == old(callcount("unqueueEvents")) + 1
 //@   assert[C10] rpc.NewEvent#*: arg0 == s.rid && arg1 == event.Event
 //@   assert[C02] s.c.Send#2: predCovered(sub, r) && (forall x *Subscription :: x.c == s.c && x.state == stateToSend ==> predClosed(x, r))
@@ -1608,11 +1608,11 @@ var _ rpc.Resources
 //@   requires s != nil && event != nil && s.c != nil && predConnOK(s.c.(*wsConn))
 //@   assumes forall j int :: 0 <= j && j < len(subs) ==> subs[j] != nil && subs[j].c == s.c
 //@   assumes forall x *Subscription :: x.c == s.c ==> x.state != stateToSend
-//@   ensures[C03] old(s.state) == stateDisposed ==> count == old(count) && wsframes == old(wsframes) &&
+//@   ensures[C03] old(s.state) != stateSent ==> count == old(count) && wsframes == old(wsframes) &&
 //@       callcount("ReleaseRPCResources") == old(callcount("ReleaseRPCResources")) && callcount("unqueueEvents") == old(callcount("unqueueEvents"))
-//@   ensures[C03] old(s.state) != stateDisposed && old(count) > 1 ==> count == old(count) - 1 && wsframes == old(wsframes) &&
+//@   ensures[C03] old(s.state) == stateSent && old(count) > 1 ==> count == old(count) - 1 && wsframes == old(wsframes) &&
 //@       callcount("ReleaseRPCResources") == old(callcount("ReleaseRPCResources")) && callcount("unqueueEvents") == old(callcount("unqueueEvents"))
-//@   ensures[C03] old(s.state) != stateDisposed && old(count) <= 1 ==> callcount("unqueueEvents") == old(callcount("unqueueEvents")) + 1 &&
+//@   ensures[C03] old(s.state) == stateSent && old(count) <= 1 ==> callcount("unqueueEvents") == old(callcount("unqueueEvents")) + 1 &&
 //@       callcount("ReleaseRPCResources") == old(callcount("ReleaseRPCResources")) + len(subs)
 //@   assert[C10] rpc.NewEvent#*: arg0 == s.rid && arg1 == event.Event
 //@   assert[C01] rpc.NewEvent#3: s.c.(*wsConn).protocolVer < versionSoftResourceReferenceAndDataValue && typeis(arg2.(rpc.ChangeEvent).Values, rescache.Legacy120ValueMap)
